@@ -10,7 +10,9 @@ CHECKS = {
     'C15': dict(
         engine='voteset',
         technique='TLA+ spec VoteSet.tla exhaustively model-checked with TLC; every edge of its state graph and simulated '
-                  'behaviours replayed on the real types.VoteSet (model-based testing), state compared after each step',
+                  'behaviours replayed on the real types.VoteSet (model-based testing), state compared after each step; '
+                  'TLA+ spec HeightVoteSet.tla (routing of votes to the sets of their round and type, catch-up rounds per peer) '
+                  'model-checked and its simulated behaviours replayed on the real pbft.HeightVoteSet',
         level=('model_checking',
                'TLC proves the accounting invariants (Sound, Complete, CountedOnce, Maj23Stable, ConflictReported, '
                'CommitVerifies) of VoteSet.tla for all vote streams over 1-4 validators with unequal powers; the real '
